@@ -1,4 +1,5 @@
 import Thanos.Lemmas.ReadPath
+import Thanos.Lemmas.FirstFit
 /-
   C04, query ranges that cut the series.  `boundedSeriesIterator.Seek` does not enforce `maxt`
   (a sample beyond it can come out) and answers `ValNone` without moving when the target is
@@ -15,6 +16,7 @@ structure TrackM {ρ : Type} (o : Ops ρ) (M : Int) (T : ρ → List Sample → 
     (rem : ρ → Nat) : Prop where
   tNe : ∀ r L, T r L → L ≠ []
   tLe : ∀ r L, T r L → ∀ x ∈ L, x.t ≤ M
+  tLower : ∀ r L, T r L → ∀ x ∈ L, minT < x.t
   tAtS : ∀ r L, T r L → o.atS r = L.head?
   tAtT : ∀ r L, T r L → o.atT r = L.head?.map (·.t)
   tSeekT : ∀ r L t, T r L → dropLt t L ≠ [] → (o.seek t r).2 = true ∧ T (o.seek t r).1 (dropLt t L)
@@ -163,6 +165,10 @@ theorem bnd_trackM (h : ListLike o V abs) :
     intro r L hT x hx
     rw [hT.2.2.2.2.1] at hx
     exact mem_takeLe_le hx
+  tLower := by
+    intro r L hT x hx
+    rw [hT.2.2.2.2.1] at hx
+    exact h.lower _ hT.1 x ((takeLe_sublist M _).subset hx)
   tAtS := by
     intro r L ⟨hV, _, _, _, hL, hne⟩
     rw [hL] at hne ⊢
@@ -1142,6 +1148,252 @@ theorem loopT (ha : TrackM oa M Ta Ba ra) (hb : TrackM ob M Tb Bb rb) (t : Int) 
         simp only [hok, if_true]
         obtain ⟨i1, i2, i3, i4, i5⟩ := ih _ _ hT' (by omega)
         exact ⟨i1, by omega, fun _ _ => (by omega), i4, i5⟩
+
+theorem nodeRem_le_fuel (ha : TrackM oa M Ta Ba ra) (hb : TrackM ob M Tb Bb rb) {s : Node α β}
+    {la lb : List Sample} (hst : NodeSt oa ob Ta Ba Tb Bb s la lb) :
+    nodeRem ra rb s ≤ oa.fuel s.a + ob.fuel s.b := by
+  unfold nodeRem remOf
+  have h1 : (if s.aval = true then ra s.a else 0) ≤ oa.fuel s.a := by
+    cases hav : s.aval with
+    | false => simp
+    | true =>
+      have hc := hst.2.1; rw [hav] at hc
+      simpa using ha.remFuel _ hc.valid
+  have h2 : (if s.bval = true then rb s.b else 0) ≤ ob.fuel s.b := by
+    cases hbv : s.bval with
+    | false => simp
+    | true =>
+      have hc := hst.2.2; rw [hbv] at hc
+      simpa using hb.remFuel _ hc.valid
+  omega
+
+theorem nodeRem_pos (ha : TrackM oa M Ta Ba ra) (hb : TrackM ob M Tb Bb rb) {s : Node α β}
+    {la lb : List Sample} (hst : NodeSt oa ob Ta Ba Tb Bb s la lb) (hpos : NodePos oa ob s) :
+    1 ≤ nodeRem ra rb s := by
+  unfold nodeRem remOf
+  obtain ⟨_, hch⟩ := hpos
+  cases hl : s.lastIsA with
+  | true =>
+    rw [hl] at hch; simp only [if_true] at hch
+    have hc := hst.2.1; rw [hch.1] at hc
+    have := ha.remPos _ hc.valid
+    simp only [hch.1, if_true]; omega
+  | false =>
+    rw [hl] at hch; simp only [Bool.false_eq_true, if_false] at hch
+    have hc := hst.2.2; rw [hch.1] at hc
+    have := hb.remPos _ hc.valid
+    simp only [hch.1, if_true]; omega
+
+/-- the elements of what a node follows come from what its sides follow -/
+theorem nodeT_mem {s : Node α β} {L : List Sample} (h : nodeT oa ob Ta Ba Tb Bb s L) :
+    ∃ la lb, NodeSt oa ob Ta Ba Tb Bb s la lb ∧ ∀ x ∈ L, x ∈ la ∨ x ∈ lb := by
+  obtain ⟨la, lb, hst, _, _, cur, hcur, _, hL⟩ := h
+  refine ⟨la, lb, hst, ?_⟩
+  intro x hx
+  rw [hL] at hx
+  rcases List.mem_cons.mp hx with rfl | hx
+  · have hm := List.mem_of_mem_head? hcur
+    cases hl : s.lastIsA with
+    | true => rw [hl] at hm; exact Or.inl hm
+    | false => rw [hl] at hm; exact Or.inr hm
+  · rcases pm2_mem hx with h | h
+    · exact Or.inl (mem_of_mem_dropLt h)
+    · exact Or.inr (mem_of_mem_dropLt h)
+
+theorem childSt_mem_T {γ : Type} {o : Ops γ} {T : γ → List Sample → Prop} {B : γ → Prop}
+    {c : γ} {av : Bool} {l : List Sample} (hc : ChildSt o T B c av l) {x : Sample} (hx : x ∈ l) : T c l := by
+  rcases hc with ⟨_, _, hT⟩ | ⟨he, _, _⟩ | ⟨he, _, _⟩
+  · exact hT
+  · rw [he] at hx; simp at hx
+  · rw [he] at hx; simp at hx
+
+/-- **A dedup node over two iterators that track lists up to `M` tracks the penalty merge of
+    those lists up to `M`.** -/
+theorem node_trackM (ha : TrackM oa M Ta Ba ra) (hb : TrackM ob M Tb Bb rb) (hM : minT ≤ M) :
+    TrackM (nodeOps oa ob true) M (nodeT oa ob Ta Ba Tb Bb) (nodeB oa ob Ta Ba Tb Bb) (nodeRem ra rb) := by
+  -- Seek on a positioned node is the loop
+  have hseekT : ∀ (s : Node α β) (L : List Sample) (t : Int), nodeT oa ob Ta Ba Tb Bb s L →
+      (nodeOps oa ob true).seek t s = nodeSeekLoop oa ob t (nodeFuel oa ob s + 1) s ∧
+      nodeRem ra rb s + 1 ≤ nodeFuel oa ob s + 1 := by
+    intro s L t hT
+    obtain ⟨la, lb, hst, hsame, hpen, cur, hcur, hct, hL⟩ := hT
+    have hne : s.lastT ≠ minT := by
+      -- lastT is the timestamp of a tracked sample
+      have hcm := List.mem_of_mem_head? hcur
+      cases hl : s.lastIsA with
+      | true =>
+        rw [hl] at hcm; simp only [if_true] at hcm
+        have := ha.tLower _ _ (childSt_mem_T hst.2.1 hcm) cur hcm
+        omega
+      | false =>
+        rw [hl] at hcm; simp only [Bool.false_eq_true, if_false] at hcm
+        have := hb.tLower _ _ (childSt_mem_T hst.2.2 hcm) cur hcm
+        omega
+    refine ⟨by simp only [nodeOps_seek_fixed, nodeSeekFixed, hne, if_false], ?_⟩
+    have := nodeRem_le_fuel ha hb hst
+    unfold nodeFuel; omega
+  have hseekB : ∀ (s : Node α β) (t : Int), nodeB oa ob Ta Ba Tb Bb s →
+      (nodeOps oa ob true).seek t s = nodeSeekLoop oa ob t (nodeFuel oa ob s + 1) s ∧
+      nodeRem ra rb s + 1 ≤ nodeFuel oa ob s + 1 := by
+    intro s t hB
+    have hpos := nodePos_of_B hB
+    have hne : s.lastT ≠ minT := by
+      obtain ⟨_, hsame, hch⟩ := hB
+      cases hl : s.lastIsA with
+      | true =>
+        rw [hl] at hch; simp only [if_true] at hch
+        obtain ⟨x, _, hx, hxM⟩ := ha.bAt _ hch.2.1
+        have : s.lastT = x.t := by rw [hch.2.2.1] at hx; exact Option.some.inj hx
+        omega
+      | false =>
+        rw [hl] at hch; simp only [Bool.false_eq_true, if_false] at hch
+        obtain ⟨x, _, hx, hxM⟩ := hb.bAt _ hch.2.1
+        have : s.lastT = x.t := by rw [hch.2.2.1] at hx; exact Option.some.inj hx
+        omega
+    refine ⟨by simp only [nodeOps_seek_fixed, nodeSeekFixed, hne, if_false], ?_⟩
+    have := nodeRem_le_fuel ha hb hB.1
+    unfold nodeFuel; omega
+  exact {
+    tNe := by
+      rintro s L ⟨_, _, _, _, _, cur, _, _, hL⟩; rw [hL]; simp
+    tLe := by
+      intro s L hT x hx
+      obtain ⟨la, lb, hst, hmem⟩ := nodeT_mem hT
+      rcases hmem x hx with h | h
+      · exact ha.tLe _ _ (childSt_mem_T hst.2.1 h) x h
+      · exact hb.tLe _ _ (childSt_mem_T hst.2.2 h) x h
+    tLower := by
+      intro s L hT x hx
+      obtain ⟨la, lb, hst, hmem⟩ := nodeT_mem hT
+      rcases hmem x hx with h | h
+      · exact ha.tLower _ _ (childSt_mem_T hst.2.1 h) x h
+      · exact hb.tLower _ _ (childSt_mem_T hst.2.2 h) x h
+    tAtS := by
+      rintro s L ⟨la, lb, hst, _, _, cur, hcur, _, hL⟩
+      rw [hL]
+      simp only [nodeOps_atS, nodeAt, List.head?_cons]
+      have hcm := List.mem_of_mem_head? hcur
+      cases hl : s.lastIsA with
+      | true =>
+        rw [hl] at hcur hcm; simp only [if_true] at hcur hcm ⊢
+        rw [ha.tAtS _ _ (childSt_mem_T hst.2.1 hcm), hcur]
+      | false =>
+        rw [hl] at hcur hcm; simp only [Bool.false_eq_true, if_false] at hcur hcm ⊢
+        rw [hb.tAtS _ _ (childSt_mem_T hst.2.2 hcm), hcur]
+    tAtT := by
+      intro s L hT
+      obtain ⟨_, _, _, hpos⟩ := nodePos_of_T ha hb hT
+      obtain ⟨_, _, _, _, _, cur, _, hct, hL⟩ := hT
+      rw [hL]
+      simp only [nodeOps_atT, List.head?_cons, Option.map_some, hct]
+      exact nodePos_atT hpos
+    tSeekT := by
+      intro s L t hT hD
+      obtain ⟨he, hf⟩ := hseekT s L t hT
+      rw [he]
+      exact (loopT ha hb t _ s L hT hf).2.2.2.1 hD
+    tSeekB := by
+      intro s L t hT hD
+      obtain ⟨he, hf⟩ := hseekT s L t hT
+      rw [he]
+      cases hok : (nodeSeekLoop oa ob t (nodeFuel oa ob s + 1) s).2 with
+      | false => exact Or.inl rfl
+      | true => exact Or.inr ((loopT ha hb t _ s L hT hf).2.2.2.2 hD hok)
+    tAdjust := fun s L v hT => (nodeAdjust_track ha hb v s).2.1 L hT
+    tBad := by
+      rintro s L ⟨la, lb, hst, _⟩
+      exact nodeOk_of_st ha hb hst
+    bAt := by
+      rintro s ⟨hst, hsame, hch⟩
+      cases hl : s.lastIsA with
+      | true =>
+        rw [hl] at hch; simp only [if_true] at hch
+        obtain ⟨x, hxs, hxt, hxM⟩ := ha.bAt _ hch.2.1
+        refine ⟨x, by simp only [nodeOps_atS, nodeAt, hl, if_true]; exact hxs, ?_, hxM⟩
+        simp only [nodeOps_atT, nodeAtT]
+        rw [← hsame, hl]; simp only [if_true]; exact hxt
+      | false =>
+        rw [hl] at hch; simp only [Bool.false_eq_true, if_false] at hch
+        obtain ⟨x, hxs, hxt, hxM⟩ := hb.bAt _ hch.2.1
+        refine ⟨x, by simp only [nodeOps_atS, nodeAt, hl, Bool.false_eq_true, if_false]; exact hxs, ?_, hxM⟩
+        simp only [nodeOps_atT, nodeAtT]
+        rw [← hsame, hl]; simp only [Bool.false_eq_true, if_false]; exact hxt
+    bSeek := by
+      intro s t hB
+      obtain ⟨he, hf⟩ := hseekB s t hB
+      rw [he]
+      cases hok : (nodeSeekLoop oa ob t (nodeFuel oa ob s + 1) s).2 with
+      | false => exact Or.inl rfl
+      | true => exact Or.inr ((loopB ha hb t _ s hB hf).2.2 hok).1
+    bSeekStay := by
+      intro s t x hB hat hle hok
+      obtain ⟨he, hf⟩ := hseekB s t hB
+      rw [he] at hok ⊢
+      have hx : x = s.lastT := by
+        have := nodePos_atT (nodePos_of_B hB)
+        simp only [nodeOps_atT] at hat
+        rw [this] at hat; cases hat; rfl
+      subst hx
+      exact ((loopB ha hb t _ s hB hf).2.2 hok).2.2 hle
+    bAdjust := fun s v hB => (nodeAdjust_track ha hb v s).2.2.1 hB
+    bBad := by
+      rintro s ⟨hst, _⟩
+      exact nodeOk_of_st ha hb hst
+    seekBad := by
+      intro s t hv
+      rcases hv with ⟨L, hT⟩ | hB
+      · obtain ⟨he, hf⟩ := hseekT s L t hT
+        rw [he]
+        exact (loopT ha hb t _ s L hT hf).1
+      · obtain ⟨he, hf⟩ := hseekB s t hB
+        rw [he]
+        exact (loopB ha hb t _ s hB hf).1
+    remFuel := by
+      intro s hv
+      have hst : ∃ la lb, NodeSt oa ob Ta Ba Tb Bb s la lb := by
+        rcases hv with ⟨L, la, lb, hst, _⟩ | ⟨hst, _⟩
+        · exact ⟨la, lb, hst⟩
+        · exact ⟨_, _, hst⟩
+      obtain ⟨la, lb, hst⟩ := hst
+      have := nodeRem_le_fuel ha hb hst
+      simp only [nodeOps_fuel, nodeFuel]; omega
+    remPos := by
+      intro s hv
+      rcases hv with ⟨L, hT⟩ | hB
+      · obtain ⟨la, lb, hst, hpos⟩ := nodePos_of_T ha hb hT
+        exact nodeRem_pos ha hb hst hpos
+      · exact nodeRem_pos ha hb hB.1 (nodePos_of_B hB)
+    remSeekLe := by
+      intro s t hv
+      rcases hv with ⟨L, hT⟩ | hB
+      · obtain ⟨he, hf⟩ := hseekT s L t hT
+        rw [he]
+        exact (loopT ha hb t _ s L hT hf).2.1
+      · obtain ⟨he, hf⟩ := hseekB s t hB
+        rw [he]
+        exact (loopB ha hb t _ s hB hf).2.1
+    remSeekLt := by
+      intro s t x hv hat hlt hok
+      rcases hv with ⟨L, hT⟩ | hB
+      · obtain ⟨he, hf⟩ := hseekT s L t hT
+        rw [he] at hok ⊢
+        obtain ⟨_, _, _, hpos⟩ := nodePos_of_T ha hb hT
+        have := nodePos_atT hpos
+        simp only [nodeOps_atT] at hat
+        rw [this] at hat; cases hat
+        exact (loopT ha hb t _ s L hT hf).2.2.1 hlt hok
+      · obtain ⟨he, hf⟩ := hseekB s t hB
+        rw [he] at hok ⊢
+        have := nodePos_atT (nodePos_of_B hB)
+        simp only [nodeOps_atT] at hat
+        rw [this] at hat; cases hat
+        exact ((loopB ha hb t _ s hB hf).2.2 hok).2.1 hlt
+    remAdjust := fun s v => (nodeAdjust_track ha hb v s).2.2.2
+    atTAdjust := by
+      intro s v
+      obtain ⟨p1, p2, p3, p4, p5, p6⟩ := nodeAdjust_proj (oa := oa) (ob := ob) v s
+      simp only [nodeOps_atT, nodeOps_adjust, nodeAtT, p3, p5, p6]
+      cases s.useA <;> cases s.aval <;> cases s.bval <;> simp [ha.atTAdjust, hb.atTAdjust] }
 
 end node
 
